@@ -40,6 +40,7 @@ ASSUMPTIONS = {"*": [
 EXPECTED_FAULTS = {"C16": ["write_error", "restart"]}
 DETERMINISM_SAMPLE = {"quick": 4, "thorough": 8}
 EXHAUSTIVE = {}
+MIN_CASES = {'quick': 330, 'thorough': 7000}
 TOL = 1e-9
 
 
